@@ -80,6 +80,26 @@ theorem power_operator_diag (pindex : List Nat) (s x : List K) (p : Nat) (hp : p
     (powerOperator pindex s x).getD p 0 = s.getD (pindex.getD p 0) 0 * x.getD p 0 :=
   Power.power_operator_diag pindex s x p hp hx
 
+
+/-- natural binning: if `u` lists the unique k-lengths (strictly increasing) and every one of them is the k-length of
+    some pixel, then every bin of `pindex = searchsorted(midpoints u, k)` has at least one member -/
+theorem natural_bins_nonempty {K : Type} [Field K] [LinearOrder K] [IsStrictOrderedRing K] (u k : List K)
+    (hs : u.Pairwise (· < ·)) (hatt : ∀ x ∈ u, x ∈ k) (b : Nat) (hb : b < u.length) :
+    0 < (k.map (searchsortedLeft (midpoints u))).count b := by
+  rw [List.count_pos_iff]
+  rw [List.mem_map]
+  exact ⟨u[b], hatt _ (List.getElem_mem hb), midpoints_count u hs b hb⟩
+
+/-- hence, for natural binning, `power_analyze(f) = s` whenever `|f|² = D s` — no further hypothesis on the bins -/
+theorem analyze_distributed_natural {K : Type} [Field K] [LinearOrder K] [IsStrictOrderedRing K] (u k s : List K) (dvol : K)
+    (hd : dvol ≠ 0) (hs : u.Pairwise (· < ·)) (hatt : ∀ x ∈ u, x ∈ k) (hlen : s.length = u.length) :
+    let pindex := k.map (searchsortedLeft (midpoints u))
+    analyze pindex (bincount s.length pindex) dvol (distribute pindex s) = s := by
+  intro pindex
+  have : CharZero K := IsStrictOrderedRing.toCharZero
+  exact Power.analyze_distributed pindex s dvol hd (fun b hb => natural_bins_nonempty u k hs hatt b (by omega))
+
+
 /-! ### non-vacuity -/
 example : analyze [0, 1, 2, 1, 1] (bincount 3 [0, 1, 2, 1, 1]) (1 / 4 : Rat) (distribute [0, 1, 2, 1, 1] [5, 7, 9]) = [5, 7, 9] := by
   decide +kernel
